@@ -88,9 +88,9 @@ c21[14]['witness']['data']['inputs'][0] = prog(regs)
 inside_doc = ('by design (gc convention) the parser gives operator-like nodes the line:column of a token INSIDE the node (the operator of a binary expression, the dot of a selector, the opening parenthesis of a call/conversion, the bracket of an index/slice, the brace of a composite literal, the inner expression of a parenthesized expression, the word operators contains/and/or/not) while Start/End span the whole node; every checker error positioned on such a node therefore has Line/Column that are not those of Start. Not a small repair (every node constructor and the position tests would change). Class: ')
 inside = [
  ('check|column:inside:operator', tmpl('{% a == 3 %}')),
- ('check|line:inside:operator', tmpl('{%%\n1 +\n"a"\n%%}')),
+ ('check|line:inside:operator', tmpl('{% `e\nf` + a %}')),
  ('check|column:inside:paren', tmpl('{{ itoa("a") }}')),
- ('check|line:inside:paren', tmpl('{%%\nitoa\n("a")\n%%}')),
+ ('check|line:inside:paren', tmpl('{%% func(s string) {\n}(1.5) %%}')),
  ('check|column:inside:dot', tmpl('{{ a . b }}')),
  ('check|column:inside:brace', tmpl('{%%\nT{}\n%%}')),
  ('check|column:inside:bracket', tmpl('{{ a [1] }}')),
